@@ -5,8 +5,9 @@
    `pp e` = the tokens of Expression::pretty_print (model of typed_ast.rs as fixed);
    `parse` = the parser model of C10; `erase e` = the untyped tree e was elaborated from. *)
 From Coq Require Import List NArith Bool.
-From NV Require Import Syntax.Token Syntax.Ast Syntax.StrEsc Syntax.Parser Syntax.Grammar
-     Syntax.StrEscProofs Syntax.TypedPrinter Syntax.TypedPrinterProofs Syntax.FixedPoint.
+From NV Require Import Syntax.Token Syntax.Ast Syntax.StmtAst Syntax.StrEsc Syntax.Parser Syntax.Grammar
+     Syntax.StrEscProofs Syntax.TypedPrinter Syntax.TypedPrinterProofs Syntax.FixedPoint
+     Syntax.TypeGrammar Syntax.StmtGrammar Syntax.DefEcho.
 Import ListNotations.
 Local Open Scope N_scope.
 
@@ -41,6 +42,24 @@ Theorem C15_fixed_point_partial : forall (is_unit is_fn : str -> bool) (e : texp
   exists u, parse (pp e) = Ok [StExpr u] [] /\ pp (lift is_unit is_fn u) = pp e.
 Proof. exact echo_fixed_point. Qed.
 Print Assumptions C15_fixed_point_partial.
+
+(* Decorators: the echo of every decorator (decorator_markup: name / url / description / example with their strings quoted by
+   escape_numbat_string, aliases with their accepts annotations, the prefix decorators), whatever strings and alias lists it carries, is
+   read back by Parser::parse_decorator as that decorator. *)
+Theorem C15_decorator_echo : forall (d : decorator) (rest : list token),
+  parse_decorator (pr_deco_body (echo_deco d) ++ rest) = Ok d rest.
+Proof. exact decorator_echo_parses. Qed.
+Print Assumptions C15_decorator_echo.
+
+(* Definitions: the echo of a `let`, `unit`, `fn`, `dimension` or `struct` definition (Syntax/DefEcho.v: its decorators one per
+   line, the name, the readable types, the echo of the body and of the where-clauses) is accepted by the
+   parser and read back as that definition: same name, same types, the SAME decorators, the tree the
+   body's echo denotes.  `echoable` = printable expressions, well-formed readable types, decorators the
+   parser admits on that kind of definition. *)
+Theorem C15_definition_echo_partial : forall e : edef,
+  echoable e = true -> parse (pp_def e) = Ok [reread_def e] [].
+Proof. exact echo_def_roundtrip. Qed.
+Print Assumptions C15_definition_echo_partial.
 
 (* NOT PROVED (partial): (1) for the temperature sugar forms `reread e` equals `erase e` only up
    to numbat's elaboration of `x °C` / `x -> °C` (not modelled), and the fixed point is not proved
@@ -109,4 +128,18 @@ Example C15_ex_fixed_point :
   /\ pp e = [TIdent [102]; TLParen; TNumber [50]; TIdent [109]; TRParen; TDivide; TLParen; TIdent [97]; TPlus;
             TNumber [51]; TIdent [98]; TRParen]
   /\ lift is_unit is_fn (erase e) = e.
+Proof. vm_compute. repeat split; reflexivity. Qed.
+
+(* a let with a name decorator (whose string contains a double quote) and an aliases decorator:
+   echoed, and read back with the decorators *)
+Example C15_ex_definition_echo :
+  let ds := [DName [113; 34; 113]%N; DAliases [([97]%N, None); ([98]%N, None)]] in
+  let e := EDLet ds [118]%N (YIdent [83; 99; 97; 108; 97; 114]%N None) (XBin Add (n_ 49) (n_ 50)) in
+  echoable e = true
+  /\ pp_def e = [TAt; TIdent w_name; TLParen; TString [34; 113; 92; 34; 113; 34]; TRParen; TNewline;
+                 TAt; TIdent w_aliases; TLParen; TIdent [97]; TComma; TIdent [98]; TRParen; TNewline;
+                 TKw KLet; TIdent [118]; TColon; TIdent [83; 99; 97; 108; 97; 114]; TEqual;
+                 TNumber [49]; TPlus; TNumber [50]]%N
+  /\ parse (pp_def e) = Ok [StLet (mk_defvar [118]%N (Some (TAExp (TEIdent [83; 99; 97; 108; 97; 114]%N []))) ds
+                                   (EBin Add (EScalar [49]%N) (EScalar [50]%N)))] [].
 Proof. vm_compute. repeat split; reflexivity. Qed.
